@@ -95,6 +95,11 @@ func stubIntrinsic(in *Interp, th *Thread, fn *ssa.Function, a []Value) (Value, 
 			return nil, stYield
 		}
 		return nil, stDone
+	case "symSchedCanonical":
+		// on: among several runnable threads the current one, else the one with the lowest id, runs (one canonical
+		// run-to-quiescence schedule instead of a decision); harness-level choices still fork
+		in.canonical = a[0].(*Term).op == OpTrue
+		return nil, stDone
 	case "symPreemptBudget":
 		// from here on at most n further preemptions (never more than the harness' bound allows in total)
 		t := a[0].(*Term)
